@@ -67,8 +67,9 @@ ssize_t io::queue::write(size_t len, const void *d, size_t part)
 ssize_t io::queue::read(size_t len, void *d, size_t part)
 {
 	size_t done = 0;
+	/* consume from the front: the data peek() shows, in written order */
 	while (done < len) {
-		if (!mpt_qpop(&_d, part, d)) {
+		if (!mpt_qshift(&_d, part, d)) {
 			return done;
 		}
 		++done;
